@@ -675,6 +675,16 @@ class Zone(dns.transaction.TransactionManager):
             treated as the name of a file to open.
         """
 
+        if (
+            style.want_generic
+            and style.origin is None
+            and self.relativize
+            and self.origin is not None
+        ):
+            # The generic rdata syntax needs absolute names.  Names in a relativized
+            # zone are already relative, so supplying the origin does not change how
+            # owner names are rendered.
+            style = style.replace(origin=self.origin, relativize=True)
         # Apply style items we learned from $UNICODE when we loaded the zone (if any).
         if style.want_unicode_directive:
             idna_codec: dns.name.IDNACodec | None = style.idna_codec
